@@ -131,7 +131,24 @@ func isCmp(op token.Token) bool {
 	return false
 }
 
+// FUnknown: a float64 whose value the encoding cannot represent (inexact operation over several
+// symbolic inputs).  It may flow through further arithmetic and be returned or stored; any
+// attempt to compare it or convert it to an integer aborts the unit as not encodable.
+type FUnknown struct{ why string }
+
 func (m *Machine) floatBinop(op token.Token, x, y value, in ssa.Instruction) value {
+	if u, ok := x.(FUnknown); ok {
+		if isCmp(op) {
+			panic(unsupported("comparison on a float the encoding cannot represent: " + u.why))
+		}
+		return u
+	}
+	if u, ok := y.(FUnknown); ok {
+		if isCmp(op) {
+			panic(unsupported("comparison on a float the encoding cannot represent: " + u.why))
+		}
+		return u
+	}
 	xc, xConc := x.(float64)
 	yc, yConc := y.(float64)
 	if xConc && yConc {
@@ -267,7 +284,11 @@ func (m *Machine) floatBinop(op token.Token, x, y value, in ssa.Instruction) val
 				return &FTab{arg: idx, lo: 0, vals: vals}
 			}
 		}
-		panic(unsupported(fmt.Sprintf("float op %s on %s / %s at %s: not exactly representable and no small table", op, fdesc(x), fdesc(y), posOf(m.prog, in.Pos()))))
+		why := fmt.Sprintf("float op %s on %s / %s at %s: not exactly representable and no small table", op, fdesc(x), fdesc(y), posOf(m.prog, in.Pos()))
+		if g != nil {
+			panic(unsupported(why))
+		}
+		return FUnknown{why}
 	}
 	if isCmp(op) {
 		return apply(nil, func(a, b float64) bool { return fcmp(op, a, b) })
@@ -384,6 +405,8 @@ func (m *Machine) reduceRat(n *Term, d int64) value {
 
 func (m *Machine) floatToInt(x value, in ssa.Instruction) value {
 	switch x := x.(type) {
+	case FUnknown:
+		panic(unsupported("int() of a float the encoding cannot represent: " + x.why))
 	case float64:
 		if math.IsNaN(x) || math.Abs(x) >= 9.2e18 {
 			panic(unsupported("float to int out of range"))
@@ -405,6 +428,12 @@ func (m *Machine) floatToInt(x value, in ssa.Instruction) value {
 }
 
 func (m *Machine) iteFloat(g *Term, a, b value) value {
+	if u, ok := a.(FUnknown); ok {
+		return u
+	}
+	if u, ok := b.(FUnknown); ok {
+		return u
+	}
 	if af, ok := a.(float64); ok {
 		if bf, ok := b.(float64); ok {
 			if af == bf {
@@ -444,6 +473,8 @@ func (m *Machine) mathFn(name string, args []value, site ssa.Instruction) value 
 	}
 	if f, ok := f1[name]; ok {
 		switch x := args[0].(type) {
+		case FUnknown:
+			return x
 		case float64:
 			return f(x)
 		case *FTab:
